@@ -407,7 +407,18 @@ namespace detail {
                     node_receiver_type& receiver,
                     result_options options) const override
         {
-                this->tail_select(context, root, last, root, receiver, options);
+                this->tail_select(context, root, root_of(last), root, receiver, options);
+        }
+
+        // the path of the root value is the root of whatever path leads to the current node
+        static const path_node_type& root_of(const path_node_type& node) noexcept
+        {
+            const path_node_type* p = &node;
+            while (p->parent() != nullptr)
+            {
+                p = p->parent();
+            }
+            return *p;
         }
 
         reference evaluate(eval_context<Json,JsonReference>& context,
@@ -421,7 +432,7 @@ namespace detail {
             {
                 return context.get_from_cache(id_);
             }
-            auto& ref = this->evaluate_tail(context, root, last, root, options, ec);
+            auto& ref = this->evaluate_tail(context, root, root_of(last), root, options, ec);
             if (!ec)
             {
                 context.add_to_cache(id_, ref);
